@@ -124,3 +124,32 @@ Definition e_P02_req (v : uval) : uval :=
 (* P02 for a frame given by message: [frame; bytes] *)
 Definition e_P02_env (v : uval) : uval := vbool (P02_env (getframe (arg 0 v)) (getbytes (arg 1 v))).
 Definition e_tx_ok (v : uval) : uval := vbool (tx_ok (getframe v)).
+
+(* ---- C19 ---- *)
+From PV Require Import Model.DataTypes Spec.C19.
+Definition getdtype (v : uval) : dtype :=
+  match getN (arg 0 v) with
+  | 0 => DTUndefined | 1 => DTSInt (getN (arg 1 v)) | 2 => DTUInt (getN (arg 1 v)) | 3 => DTFloat | 4 => DTDouble
+  | 5 => DTBit | 6 => DTString | 7 => DTIPv4 | _ => DTIPv6
+  end.
+Definition getdval (v : uval) : dval :=
+  match getN (arg 0 v) with
+  | 0 => DNone | 1 => DInt (getZ (arg 1 v)) | 2 => DBits (getN (arg 1 v)) | 3 => DRaw (getbytes (arg 1 v))
+  | _ => DBool (getbool (arg 1 v))
+  end.
+Definition vdval (d : dval) : uval :=
+  match d with
+  | DNone => VL [vN 0] | DInt z => VL [vN 1; VZ z] | DBits b => VL [vN 2; vN b] | DRaw b => VL [vN 3; vbytes b]
+  | DBool b => VL [vN 4; vbool b]
+  end.
+Definition e_dt_pack (v : uval) : uval := vopt vbytes (pack (getdtype (arg 0 v)) (getdval (arg 1 v))).
+Definition e_dt_unpack (v : uval) : uval :=
+  vopt (fun r => VL [vdval (fst r); vnat (snd r)]) (unpack (getdtype (arg 0 v)) (getN (arg 1 v)) (getbytes (arg 2 v))).
+Definition e_dt_representable (v : uval) : uval := vbool (representable (getdtype (arg 0 v)) (getdval (arg 1 v))).
+(* [type; value; packed by impl; value read back by impl; size reported by impl] *)
+Definition e_P19 (v : uval) : uval :=
+  vbool (P19 (getdtype (arg 0 v)) (getdval (arg 1 v)) (getbytes (arg 2 v)) (getdval (arg 3 v)) (getnat (arg 4 v))).
+Definition e_pack_var (v : uval) : uval := vopt vbytes (pack_var (getbytes v)).
+Definition e_unpack_var (v : uval) : uval :=
+  vopt (fun r => VL [vbytes (fst r); vnat (snd r)]) (unpack_var (getbytes v)).
+Definition e_bit_next (v : uval) : uval := vN (bit_next (getN v)).
